@@ -8,6 +8,8 @@
    `k_xxx args = Some o` carries the constructor's own parameter checks; hypotheses written out in a
    statement are exactly what the Go constructor does not check itself. *)
 From Coq Require Import Reals List ZArith.
+(* the hand-written model functions are equal to the terms translated from the current Go source *)
+From Sdfx Require Sdf.GenEq.
 From Sdfx Require Import Num.Ops Num.RInst Geo.Vec Geo.Box Geo.BoxR Geo.Mat Sdf.Shape Sdf.ShapeR
   Sdf.EncloseR Sdf.EncloseComb Sdf.EncloseXform Sdf.EncloseExtr Sdf.EncloseRev Sdf.EncloseRot
   Sdf.EncloseSlice Sdf.EncloseCone Sdf.EncloseRigid Sdf.EncloseBox Sdf.EncloseAll Sdf.EncloseEx.
